@@ -99,6 +99,8 @@ type sState struct {
 	hdrDraws  map[*ssa.BasicBlock]int
 	pbyteSrc  *pt
 	drawSites []ssa.Instruction
+	drawSnap  map[ssa.Instruction]map[int]string // protocol objects as they were when a draw site was first reached
+	iterDirty []string                           // objects a rejected round left changed for the next round
 	dead      bool
 	limbTerm  map[int]*pt // value of limb arrays (element decoding)
 	geff      []gEffect   // glue domain: effect log
@@ -131,6 +133,8 @@ func (s *sState) clone() *sState {
 	n.pfacts = append([]pFact(nil), s.pfacts...)
 	n.pbyteSrc = s.pbyteSrc
 	n.drawSites = append([]ssa.Instruction(nil), s.drawSites...)
+	n.drawSnap = s.drawSnap // snapshots are never modified after creation
+	n.iterDirty = append([]string(nil), s.iterDirty...)
 	n.geff = append([]gEffect(nil), s.geff...)
 	if s.gfields != nil {
 		n.gfields = make(map[string]sVal, len(s.gfields))
